@@ -223,12 +223,25 @@ func transportAnnouncement(c *core.Ctx) {
 			}
 			k, isK := core.ConstInt(res(r)[0])
 			if !isK {
-				// return len(es) > 1  where the read succeeded
-				if t, _ := more(res(r)[0]); t && core.Dominated(r, okErr) {
-					n += 2
-				} else {
+				// return len(es) > 1  where the read succeeded; or  err == nil && len(es) > 1  (false where err != nil)
+				vals := []ssa.Value{res(r)[0]}
+				if ph, isPhi := res(r)[0].(*ssa.Phi); isPhi {
+					vals = nil
+					for _, e := range ph.Edges {
+						if kk, isKK := core.ConstInt(e); isKK && kk == 0 {
+							continue
+						}
+						vals = append(vals, e)
+					}
+				}
+				for _, v := range vals {
+					vi, isInstr := v.(ssa.Instruction)
+					if t, _ := more(v); t && isInstr && (core.Dominated(vi, okErr) || core.Dominated(r, okErr)) {
+						continue
+					}
 					good = false
 				}
+				n += 2
 				return
 			}
 			n++
